@@ -8,8 +8,8 @@ from .c02_single import covers_pos, wf_result, blocks_of, obs_loc
 from .lib import LIB  # noqa
 
 
-def loc(S, name, n, strand):
-    starts, ends = block_lists(S, name, n)
+def loc(S, name, n, strand, allow_overlap=False):
+    starts, ends = block_lists(S, name, n, allow_overlap=allow_overlap)
     obj = S.new(COMPOUND, starts, ends, strand) if n > 1 else S.new(SINGLE, starts[0], ends[0], strand)
     return obj, starts, ends
 
@@ -172,11 +172,12 @@ class RelativeLocationForm(Case):
     props = ("C01",)
     func = COMPOUND + "._location_relative_to"
 
-    def __init__(self, nq, nl, optimize=True):
-        self.nq, self.nl, self.optimize = nq, nl, optimize
+    def __init__(self, nq, nl, optimize=True, overlapping_query=False):
+        self.nq, self.nl, self.optimize, self.ovq = nq, nl, optimize, overlapping_query
         self.tier = "thorough" if nq + nl >= 4 else "quick"
         self.name = (f"location_relative_to[query {nq} block(s) -> location {nl} blocks, optimize_blocks={optimize}, "
-                     "all coordinates]")
+                     + ("query blocks may overlap each other (multiplicity kept), " if overlapping_query else "")
+                     + "all coordinates]")
         self.call = f"(q.location_relative_to(loc, optimize_blocks={optimize}), loc.parent_to_relative_pos(p))"
         self.module = "location.location_impl"
         self.ensures = {
@@ -190,7 +191,7 @@ class RelativeLocationForm(Case):
 
     def inputs(self, S):
         qstrand, lstrand = strand_of(S, "qstrand"), strand_of(S, "lstrand")
-        q, qs, qe = loc(S, "q", self.nq, qstrand)
+        q, qs, qe = loc(S, "q", self.nq, qstrand, allow_overlap=getattr(self, "ovq", False))
         l, ls, le = loc(S, "loc", self.nl, lstrand)
         p = S.int("p")
         if getattr(self, "needs_common", True):
@@ -241,4 +242,5 @@ CASES += [CompoundIntervalForm(2), CompoundIntervalForm(3), CompoundIntervalForm
 CASES += [CompoundIntervalFormMinus(2), CompoundIntervalFormMinus(3)]
 CASES += [RelativeLocationForm(1, 2), RelativeLocationForm(2, 2), RelativeLocationForm(1, 3),
           RelativeLocationForm(2, 2, optimize=False), RelativeLocationForm(3, 2),
+          RelativeLocationForm(2, 1, overlapping_query=True), RelativeLocationForm(2, 2, overlapping_query=True),
           RelativeLocationRefusal(1, 2), RelativeLocationRefusal(2, 2)]
